@@ -18,8 +18,9 @@ READING: a grid without any numbered cell satisfies rule 4 (library convention f
 import itertools
 
 NAME = "view"
-STATUS = "model+differential"
-THEOREMS = []
+STATUS = "theorem"
+THEOREMS = ["Cspuz.C11.View.program_iff_rules", "Cspuz.C11.View.total"]
+LEAN_FILE = "C11_View"
 LEAN_CMD = "puz_view"
 
 _SIZES = [(1, 1), (1, 2), (2, 1), (1, 3), (3, 1), (2, 2), (2, 3), (3, 2), (1, 4), (4, 1), (3, 3), (2, 4), (4, 2), (3, 4), (4, 3)]
